@@ -177,6 +177,7 @@ class Evaluator:
         self.max_paths = max_paths
         self.cls_ctx = cls_ctx              # for private-name mangling
         self.scope_node = None
+        self.explore_handlers = False       # also enter every except handler of a try from the state at the start of its body ("something in the body raised")
         self.keep_names_for_calls = False   # bind `x = impure_call()` as the opaque name x (readable terms for E5)
         self.simplify = False               # fold conditionals/subscripts/bit-ops whose operands are literal (scenario evaluation)
         self.const_tables = {}              # name -> dict literal (python value) usable by Subscript folding
@@ -922,6 +923,7 @@ class Evaluator:
         sub.scope_node = fn
         sub.cls_ctx = None
         sub.classes_truthy = getattr(self, 'classes_truthy', False)
+        sub.explore_handlers = self.explore_handlers
         path.frames.append(frame)
         path.depth += 1
         outs = sub.block(fn.body, path)
@@ -1242,6 +1244,20 @@ class Evaluator:
 
     def st_Try(self, st: ast.Try, path):
         after_handlers: list[Path] = []
+        if self.explore_handlers and st.handlers:
+            for h in st.handlers:
+                q0 = path.fork()
+                self._count(2)
+                exc = Exc(None, f'<some exception caught by `except {U(h.type) if h.type else ""}`>', h)
+                q0.pc.append((f'raised-in-try@{st.lineno}', U(h.type) if h.type else 'BaseException'))
+                q0.excctx.append(exc)
+                if h.name:
+                    nm = f'<exc {h.name}@{h.lineno}>'
+                    q0.env[nm] = exc      # type: ignore
+                    self.bind(h.name, ast.Name(id=nm, ctx=ast.Load()), q0)
+                for r in self.block(h.body, q0):
+                    r.excctx.pop()
+                    after_handlers.append(r)
         for p in self.block(st.body, path):
             o = p.outcome
             if o is None:
